@@ -1,76 +1,199 @@
 /-
-C25 — the visit discipline prints each conditional node's condition at most once (loop-free fragment).
+C25 — the visit discipline: every visited node triggers at most one print of a condition (loop nodes included), and
+which condition object an event prints is a function of the node that triggers it.
 -/
 import AgVerif.Model.WriterVisit
 
 namespace AgVerif.WriterVisit
 
-/-- printed nodes are pairwise distinct, every printed node is in `visited_nodes`, and is not a return node -/
-def Inv (_g : WGraph) (st : WState) : Prop :=
-  (st.out.map (·.1)).Nodup ∧ ∀ x ∈ st.out.map (·.1), x ∈ st.visited
+def trig (st : WState) : List Nat := st.out.map (·.trigger)
 
-theorem inv_push {g : WGraph} {st : WState} {n : Nat} {b : Bool} (h : Inv g st) (hn : n ∉ st.visited) :
-    Inv g { visited := n :: st.visited, out := st.out ++ [(n, b)] } := by
-  obtain ⟨h1, h2⟩ := h
-  constructor
-  · simp only [List.map_append, List.map_cons, List.map_nil]
-    rw [List.nodup_append]
-    refine ⟨h1, by simp, ?_⟩
-    intro a ha b' hb
+/-- the condition object a node's visit writes: a conditional node its own, a pre-tested loop the node it wraps,
+    a post-tested loop its latch's (through LoopBlock.visit_cond when the latch is a loop node) -/
+def printedObj (g : WGraph) (n : Nat) : Nat :=
+  match g.kind n with
+  | some (.loop .pretest c _ _ _ _) => c
+  | some (.loop .posttest _ latch _ _ _) => objOf g latch
+  | _ => n
+
+/-- triggers are pairwise distinct, every trigger is in `visited_nodes`, every event prints `printedObj` of its trigger -/
+def Inv (g : WGraph) (st : WState) : Prop :=
+  (trig st).Nodup ∧ (∀ x ∈ trig st, x ∈ st.visited) ∧ ∀ ev ∈ st.out, ev.obj = printedObj g ev.trigger
+
+/-- `visited_nodes` only grows; a new trigger was not visited before -/
+def Ext (st st' : WState) : Prop :=
+  (∀ x ∈ st.visited, x ∈ st'.visited) ∧ ∀ x ∈ trig st', x ∈ trig st ∨ x ∉ st.visited
+
+theorem ext_refl (st : WState) : Ext st st := ⟨fun _ h => h, fun _ h => Or.inl h⟩
+
+theorem ext_trans {a b c : WState} (h1 : Ext a b) (h2 : Ext b c) : Ext a c := by
+  refine ⟨fun x hx => h2.1 x (h1.1 x hx), fun x hx => ?_⟩
+  rcases h2.2 x hx with h | h
+  · exact h1.2 x h
+  · exact Or.inr fun hx' => h (h1.1 x hx')
+
+theorem inv_mark {g : WGraph} {st : WState} (n : Nat) (h : Inv g st) :
+    Inv g { st with visited := n :: st.visited } ∧ Ext st { st with visited := n :: st.visited } :=
+  ⟨⟨h.1, fun x hx => List.mem_cons_of_mem _ (h.2.1 x hx), h.2.2⟩,
+   ⟨fun _ hx => List.mem_cons_of_mem _ hx, fun _ hx => Or.inl hx⟩⟩
+
+theorem trig_emit (n obj : Nat) (sw : Bool) (st : WState) : trig (emit n obj sw st) = trig st ++ [n] := by
+  simp [trig, emit]
+
+theorem inv_emit {g : WGraph} {st : WState} {n obj : Nat} (sw : Bool) (h : Inv g st) (hv : n ∈ st.visited)
+    (hn : n ∉ trig st) (ho : obj = printedObj g n) : Inv g (emit n obj sw st) := by
+  refine ⟨?_, ?_, ?_⟩
+  · rw [trig_emit, List.nodup_append]
+    refine ⟨h.1, by simp, ?_⟩
+    intro a ha b hb
     simp only [List.mem_singleton] at hb
     subst hb
-    intro heq; subst heq
-    exact hn (h2 _ ha)
+    intro heq; subst heq; exact hn ha
   · intro x hx
-    simp only [List.map_append, List.map_cons, List.map_nil, List.mem_append, List.mem_singleton] at hx
+    rw [trig_emit, List.mem_append, List.mem_singleton] at hx
     rcases hx with hx | hx
-    · exact List.mem_cons_of_mem _ (h2 x hx)
-    · subst hx; exact List.mem_cons_self
+    · exact h.2.1 x hx
+    · subst hx; exact hv
+  · intro ev hev
+    simp only [emit, List.mem_append, List.mem_singleton] at hev
+    rcases hev with hev | hev
+    · exact h.2.2 ev hev
+    · subst hev; exact ho
 
-theorem inv_visit {g : WGraph} {st : WState} {n : Nat} (h : Inv g st) :
-    Inv g { st with visited := n :: st.visited } :=
-  ⟨h.1, fun x hx => List.mem_cons_of_mem _ (h.2 x hx)⟩
+theorem ext_emit {s0 st : WState} {n obj : Nat} (sw : Bool) (h : Ext s0 st) (hn : n ∉ s0.visited) :
+    Ext s0 (emit n obj sw st) := by
+  refine ⟨h.1, fun x hx => ?_⟩
+  rw [trig_emit, List.mem_append, List.mem_singleton] at hx
+  rcases hx with hx | hx
+  · exact h.2 x hx
+  · subst hx; exact Or.inr hn
 
-theorem visitNode_inv (g : WGraph) : ∀ (fuel : Nat) (ifs : List (Option Nat)) (n : Nat) (st : WState),
-    Inv g st → Inv g (visitNode g fuel ifs n st) := by
+/-- result of a call: invariant kept, and it extends the state it started from -/
+def R (g : WGraph) (st st' : WState) : Prop := Inv g st' ∧ Ext st st'
+
+theorem R.step {g : WGraph} {st a b : WState} (h1 : R g st a) (h2 : Inv g a → R g a b) : R g st b :=
+  ⟨(h2 h1.1).1, ext_trans h1.2 (h2 h1.1).2⟩
+
+theorem visitNode_R (g : WGraph) : ∀ (fuel : Nat) (sk : Stacks) (n : Nat) (st : WState),
+    Inv g st → R g st (visitNode g fuel sk n st) := by
   intro fuel
   induction fuel with
-  | zero => intro ifs n st h; simpa [visitNode] using h
+  | zero => intro sk n st h; exact ⟨by simpa [visitNode] using h, by simpa [visitNode] using ext_refl st⟩
   | succ k ih =>
-    intro ifs n st h
+    intro sk n st h
+    have refl : R g st st := ⟨h, ext_refl st⟩
     unfold visitNode
-    by_cases h1 : (top ifs == some n) = true
-    · simpa [h1] using h
+    by_cases h1 : (top sk.ifs == some n || top sk.loops == some n || top sk.latches == some n) = true
+    · simp only [h1, if_true]; exact refl
     · by_cases h2 : (g.kind n != some .ret && st.visited.contains n) = true
-      · simp only [h1, h2, if_true, if_false, Bool.false_eq_true]; exact h
+      · simp only [h1, h2, if_true, if_false, Bool.false_eq_true]; exact refl
       · simp only [h1, h2, if_false, Bool.false_eq_true]
+        have hm := inv_mark (g := g) n h
+        have m : R g st { st with visited := n :: st.visited } := hm
         cases hk : g.kind n with
-        | none => exact inv_visit h
+        | none => exact m
         | some kd =>
           cases kd with
-          | ret => exact inv_visit h
+          | ret => exact m
           | stmt s =>
             cases s with
-            | none => exact inv_visit h
-            | some s => exact ih _ _ _ (inv_visit h)
+            | none => exact m
+            | some s =>
+              simp only
+              split
+              · exact m
+              · exact m.step (ih _ _ _)
           | cond t f follow =>
             have hnv : n ∉ st.visited := by
-              intro hmem
-              apply h2
-              simp [hk, hmem]
+              intro hmem; apply h2; simp [hk, hmem]
+            have hnt : n ∉ trig st := fun hx => hnv (h.2.1 n hx)
+            have hobj : n = printedObj g n := by simp [printedObj, hk]
+            -- emitting right after the mark
+            have e : ∀ sw, R g st (emit n n sw { st with visited := n :: st.visited }) := fun sw =>
+              ⟨inv_emit sw m.1 List.mem_cons_self hnt hobj, ext_emit sw m.2 hnv⟩
             simp only
             split
-            · exact ih _ _ _ (inv_push h hnv)
-            · cases follow with
-              | some fo =>
-                simp only
-                apply ih
-                split <;> split <;>
-                  first
-                  | exact ih _ _ _ (ih _ _ _ (inv_push h hnv))
-                  | exact ih _ _ _ (inv_push h hnv)
-              | none =>
-                simp only
-                exact ih _ _ _ (ih _ _ _ (inv_push h hnv))
+            · exact (e _).step (ih _ _ _)
+            · split <;> split <;>
+                first
+                | exact (e _).step (ih _ _ _)
+                | (cases follow with
+                   | none => exact ((e _).step (ih _ _ _)).step (ih _ _ _)
+                   | some fo =>
+                     simp only
+                     split <;> split <;>
+                       first
+                       | exact (((e _).step (ih _ _ _)).step (ih _ _ _)).step (ih _ _ _)
+                       | exact ((e _).step (ih _ _ _)).step (ih _ _ _))
+          | loop lt c latch t f follow =>
+            have hnv : n ∉ st.visited := by
+              intro hmem; apply h2; simp [hk, hmem]
+            have hnt : n ∉ trig st := fun hx => hnv (h.2.1 n hx)
+            cases lt with
+            | pretest =>
+              have hobj : c = printedObj g n := by simp [printedObj, hk]
+              have e : ∀ sw, R g st (emit n c sw { st with visited := n :: st.visited }) := fun sw =>
+                ⟨inv_emit sw m.1 List.mem_cons_self hnt hobj, ext_emit sw m.2 hnv⟩
+              simp only
+              split <;>
+                first
+                | exact ((e _).step (ih _ _ _)).step (ih _ _ _)
+                | exact (e _).step (ih _ _ _)
+            | posttest =>
+              have hobj : objOf g latch = printedObj g n := by simp [printedObj, hk]
+              simp only
+              -- body first, then the latch condition
+              have body := ih { sk with loops := follow :: sk.loops, latches := some latch :: sk.latches } c _ m.1
+              have hin : n ∈ (visitNode g k { sk with loops := follow :: sk.loops, latches := some latch :: sk.latches } c
+                  { st with visited := n :: st.visited }).visited := body.2.1 n List.mem_cons_self
+              have hnot : n ∉ trig (visitNode g k { sk with loops := follow :: sk.loops, latches := some latch :: sk.latches } c
+                  { st with visited := n :: st.visited }) := by
+                intro hx
+                rcases body.2.2 n hx with h' | h'
+                · exact hnt h'
+                · exact h' List.mem_cons_self
+              have e : R g st (emit n (objOf g latch) false
+                  (visitNode g k { sk with loops := follow :: sk.loops, latches := some latch :: sk.latches } c
+                    { st with visited := n :: st.visited })) :=
+                ⟨inv_emit false body.1 hin hnot hobj, ext_emit false (ext_trans m.2 body.2) hnv⟩
+              cases follow with
+              | none => exact e
+              | some fo => exact e.step (ih _ _ _)
+            | endless =>
+              simp only
+              cases follow with
+              | none => exact (m.step (ih _ _ _)).step (ih _ _ _)
+              | some fo => exact ((m.step (ih _ _ _)).step (ih _ _ _)).step (ih _ _ _)
+
+theorem visitNode_inv (g : WGraph) (fuel : Nat) (sk : Stacks) (n : Nat) (st : WState) (h : Inv g st) :
+    Inv g (visitNode g fuel sk n st) := (visitNode_R g fuel sk n st h).1
+
+theorem inv_init (g : WGraph) : Inv g ⟨[], []⟩ := ⟨List.nodup_nil, by simp [trig], by simp⟩
+
+theorem nodup_map_of_inj_on {l : List Nat} (f : Nat → Nat) (h : l.Nodup)
+    (inj : ∀ a ∈ l, ∀ b ∈ l, f a = f b → a = b) : (l.map f).Nodup := by
+  induction l with
+  | nil => simp
+  | cons a l ih =>
+    rw [List.nodup_cons] at h
+    rw [List.map_cons, List.nodup_cons]
+    refine ⟨?_, ih h.2 (fun x hx y hy => inj x (List.mem_cons_of_mem _ hx) y (List.mem_cons_of_mem _ hy))⟩
+    intro hm
+    obtain ⟨b, hb, hfb⟩ := List.mem_map.mp hm
+    have := inj b (List.mem_cons_of_mem _ hb) a List.mem_cons_self hfb
+    subst this
+    exact h.1 hb
+
+/-- when no two emitting nodes write the same object, no condition object is printed twice -/
+theorem objs_nodup {g : WGraph} {st : WState} (h : Inv g st)
+    (inj : ∀ a ∈ trig st, ∀ b ∈ trig st, printedObj g a = printedObj g b → a = b) :
+    (st.out.map (·.obj)).Nodup := by
+  have hmap : st.out.map (·.obj) = (trig st).map (printedObj g) := by
+    simp only [trig, List.map_map]
+    apply List.map_congr_left
+    intro ev hev
+    exact h.2.2 ev hev
+  rw [hmap]
+  exact nodup_map_of_inj_on _ h.1 inj
 
 end AgVerif.WriterVisit
